@@ -47,6 +47,7 @@ class Gen:
         self.dead = []              # names whose block has ended
         self.has_probe = False
         self.has_badcall = False
+        self.has_hdef = False
         self.frozen = []            # collections being iterated over: not changed inside their own loop (what a loop over a
                                     # collection that changes under it visits is not specified by the properties)
         self.ret_type = None        # "num" while generating the body of a number-valued method
@@ -272,7 +273,11 @@ class Gen:
             kinds += ["const-assign", "const-shadow"]
         if self.funcs:
             kinds += ["def-assign"]
+        if self.has_hdef:
+            kinds += ["hdef", "hdef"]
         k = rng.choice(kinds)
+        if k == "hdef":
+            return [Display(Call("Fh", []))] if rng.random() < 0.75 else [Display(Call("Fi", []))]
         if k == "dead-read":
             return [Display(Var(rng.choice(dead)))]
         if k == "dead-assign":
@@ -690,6 +695,15 @@ class Gen:
             defs.append(Func("Fbad", bad_params, [Return(Num(1))], []))
             defs.append(Func("Ftry", [], [ExprS(Call("Fbad", [Num(k) for k in range(len(bad_params))])), Return(Str("no"))],
                              [("异常", [Return(Str("caught"))])]))
+        if p.scope_faults and rng.random() < 0.5:
+            # a method whose handler holds a definition: definitions in a handler are not executed (the handler runs as a plain
+            # block), so Fi is never defined — not inside the handler, not after it, not on the second run of the handler
+            self.has_hdef = True
+            hbody = [Func("Fi", [], [Return(Num(5))], [])]
+            if rng.random() < 0.4:
+                hbody.append(Display(Str("h")))
+            hbody.append(Return(Num(7)))
+            defs.append(Func("Fh", [], [Throw("异常", [Str("h")]), Return(Num(1))], [("异常", hbody)]))
         if p.probe and p.funcs and rng.random() < 0.7:
             self.has_probe = True
             defs.append(Func("Fq", ["Nq"], [Display(Str("q"), Var("Nq")), Return(Var("Nq"))], []))
